@@ -7,19 +7,22 @@ LEVEL = 'other'
 EXPLANATION = ('Proved (structure, via the operator contracts): codegen_outerexp builds term j as (term j-1 ^ x) with coefficients divided by j '
                '(= x^(wedge j)/j!), for j <= d, dropping a term only if it is empty; outersin/outercos sum the odd/even terms, outertan = '
                'outersin / outercos; MultiVector.__pow__ is the repeated geometric product, of the inverse for negative powers, the scalar 1 for '
-               '0 and sqrt for 0.5; norm() = sqrt(normsq()), normalized() = x / norm(); codegen_sqrt: operator tree of a, bI = x - a, normS = (a*a - bI*bI).e, result c + bI*c2_inv, and the two dependency texts parsed and evaluated (c^2 == (a + sqrt(normS))/2, c2_inv == 1/(2c)).  Not provable here: exp() (transcendental functions, '
-               'type dispatch on floats/arrays/sympy), codegen_sqrt (source text with ** 0.5), all floating point -> bounded numeric stand-in per '
-               'branch and signature, numerically and symbolically.  Known finding F13: exp() of an ndarray-valued element raises.')
+               '0 and sqrt for 0.5; norm() = sqrt(normsq()), normalized() = x / norm(); codegen_sqrt: operator tree of a, bI = x - a, normS = (a*a - bI*bI).e, result c + bI*c2_inv, and the two dependency texts parsed and evaluated (c^2 == (a + sqrt(normS))/2, c2_inv == 1/(2c)).  MultiVector.exp: every branch of the type / sign dispatch '
+               '(python number with s > 0, == 0, < 0; sympy expression; any other coefficient type; empty square; user-supplied functions) returns '
+               'a tree that *evaluates* (uninterpreted Sqrt/Sin/Cos/Sinh/Cosh, numpy sinc(t) = sin(pi t)/(pi t)) to cosh(sqrt s) + x sinh(sqrt s)/sqrt s, '
+               '1 + x, or cos(sqrt -s) + x sin(sqrt -s)/sqrt -s, and a non-scalar square raises.  Not provable here: the analytic identity itself, '
+               'floating point, numpy/sympy functions -> bounded numeric stand-in per branch and signature, numerically and symbolically.  Known finding F13: exp() of an ndarray-valued element raises.')
 TRUSTED = ['z3 5.1 (python API)', 'kvc VC generator', 'CPython ast module']
 ASSUMPTIONS = [K.ASSUME_CPYTHON, 'floating point and numpy/sympy transcendental functions are not modelled (this family is silent on floats)',
                'e^x = cosh(sqrt s) + x sinh(sqrt s)/sqrt s for x*x = s (real-analytic fact)']
-ASSUMED = ['MultiVector.exp']
+ASSUMED = ['numpy / sympy implementations of sqrt, cos, sin, cosh, sinh, sinc (named, not modelled)', '(self * self).filter() returns the exact square (C02, C12)']
 
 
 def build(H, tier, seed):
     M.vc_outerexp(H)
     M.vc_pow(H)
     M.vc_codegen_sqrt(H)
+    M.vc_exp(H)
     MC.vc_mv_norms(H)
     MC.vc_mv_delegations(H, methods_binary=[], methods_unary=['sqrt', 'normsq', 'outerexp', 'outersin', 'outercos', 'outertan', 'inv'])
 
